@@ -305,7 +305,7 @@ def _conclude(mod, pid, tier, seed, cases, results, started, known, t0, worker_l
             ev["coverage"].update(jsonable(extra(tier, results)))
         except Exception as exc:  # pragma: no cover
             ev["coverage"]["extra_evidence_error"] = repr(exc)
-    if not replay:
+    if not replay and not os.environ.get("VERIF_NO_EVIDENCE"):
         os.makedirs(os.path.join(ROOT, "evidence"), exist_ok=True)
         json.dump(ev, open(os.path.join(ROOT, "evidence", "%s.json" % pid), "w"), indent=1)
 
